@@ -119,12 +119,33 @@ def plugins():
     return _PLUG["scorer"], _PLUG["policy"]
 
 
+VERBOSE = [0]      # > 0 while a slice runs under vlib.common.verbose_logging()
+
+
 def quiet_logging():
+    if VERBOSE[0]:
+        return
     logging.disable(logging.CRITICAL)      # the CLI mains attach a new stream handler on every call
     lg = logging.getLogger("batchie")
     for h in list(lg.handlers):
         lg.removeHandler(h)
     lg.setLevel(logging.ERROR)
+
+
+class verbose_slice:
+    """a slice of the cases runs the way every batchie command runs under -v/--verbose"""
+
+    def __enter__(self):
+        self.cm = common.verbose_logging()
+        self.cm.__enter__()
+        VERBOSE[0] += 1
+        return self
+
+    def __exit__(self, *a):
+        VERBOSE[0] -= 1
+        r = self.cm.__exit__(*a)
+        quiet_logging()
+        return r
 
 
 class Demote:
@@ -281,12 +302,20 @@ class Env:
 
 
 def run_main(mod, argv):
+    """the real `batchie.cli.<stage>.main()`; under a verbose slice with `--verbose` (configure_logging resets the level)"""
+    import contextlib
+    lg = logging.getLogger("batchie")
+    handlers, level = list(lg.handlers), lg.level
     old = sys.argv
-    sys.argv = argv
+    sys.argv = list(argv) + (["--verbose"] if VERBOSE[0] else [])
     try:
-        mod.main()
+        with open(os.devnull, "w") as devnull, contextlib.redirect_stderr(devnull), contextlib.redirect_stdout(devnull):
+            mod.main()
     finally:
         sys.argv = old
+        if VERBOSE[0]:
+            lg.handlers = handlers
+            lg.setLevel(level)
         quiet_logging()
 
 
@@ -360,6 +389,10 @@ def select_oracle(res, case, scr, batch, table, allowed, got, what, extra):
 
 def run_case(ctx, res, env, case, lines, expect, meta, light=False):
     """runs one case on the real code, evaluates the oracles, queues driver lines"""
+    if case.get("verbose") and not VERBOSE[0]:
+        with verbose_slice():
+            res.count("class.verbose-logging")
+            return run_case(ctx, res, env, case, lines, expect, meta, light=light)
     from batchie.scoring.main import score_chunk, ChunkedScoresHolder, select_next_plate
     from batchie.scoring.size import SizeScorer
     from batchie.scoring.rand import RandomScorer
@@ -728,6 +761,7 @@ def run_cli(ctx, res, env, case, scr, raw, batch, table, total, allowed, n, orde
     scr.save_h5(data)
     files = []
     err = None
+    cli_handed = []
     for idx in range(n):
         out = env.path("cli_scores") + ".h5"
         argv = ["calculate_scores", "--scorer", "VerifTableScorer", "--data", data, "--thetas", thetas, "--distance-matrix", dm,
@@ -735,11 +769,23 @@ def run_cli(ctx, res, env, case, scr, raw, batch, table, total, allowed, n, orde
         if batch:
             argv += ["--batch-plate-ids"] + [str(b) for b in batch]
         try:
+            Scorer.log = []
             run_main(calculate_scores, argv)
             files.append(out)
+            res.count("class.entry-point.calculate_scores")
+            if Scorer.log:
+                # what the scorer RECEIVED from calculate_scores.main(): the same oracles as for the library call
+                handed_cli = Scorer.log[-1]
+                check_inputs(res, dict(case, via="cli"), scr, batch, n, idx, handed_cli)
+                cli_handed.extend(k for k, _, _ in handed_cli)
         except Exception as e:   # noqa: BLE001
             err = e
             break
+    if err is None and (not batch or any(p in batch for p in facts(scr)[4])):
+        want_ = sorted(expected_candidates(scr, batch))
+        if sorted(cli_handed) != want_:
+            res.fail("calculate_scores.main() over all chunk indices did not hand the scorer the unobserved plates outside the batch, each once",
+                     dict(case, n=n, via="cli"), sorted(cli_handed), want_, signature="C06:cover")
     res.evaluations += 1
     for pol in ([None, allowed] if allowed is not None else [None]):
         if err is not None:
@@ -769,6 +815,13 @@ def run_cli(ctx, res, env, case, scr, raw, batch, table, total, allowed, n, orde
                         got_id = "unparsable:" + content
                     select_oracle(res, case, scr, batch, table, pol, None if got_id == -1 else got_id, "select_next_plate CLI",
                                   {"n": n, "order": list(order), "policy": pol, "via": "cli"})
+                res.count("class.entry-point.select_next_plate")
+                if content == "-1":
+                    res.count("class.entry-point.select_next_plate.sentinel--1-written")
+                elif content == "0":
+                    res.count("class.entry-point.select_next_plate.plate-0-written")
+                if 0 in batch:
+                    res.count("class.entry-point.batch-plate-id-0-on-the-command-line")
             except Exception as e:   # noqa: BLE001
                 stext = S.err_tok(e)
                 if total:
@@ -839,6 +892,10 @@ def crafted_cases():
     out.append(mk(rows3, {"p0": False, "p1": False, "p2": False, "p3": False}, [], {0: -2.0, 1: 0.0, 2: 1.0, 3: 0.5}, [0, 1], [1, 4, 6], "plate0-minimum"))
     # plate 0 is the batch; plate 1 has score 0.0 and is the minimum
     out.append(mk(rows3, {"p0": False, "p1": False, "p2": False, "p3": True}, [0], {0: -2.0, 1: 0.0, 2: 1.0, 3: -2.0}, None, [1, 2, 3], "plate0-in-batch"))
+    # the "-1" that select_next_plate writes when nothing is eligible, fed back as a batch id (not a plate id: outside the quantifier, tie only)
+    out.append(mk(rows3, {"p0": False, "p1": False, "p2": False, "p3": False}, [3, -1], {0: 0.5, 1: 0.0, 2: 1.0, 3: -2.0}, None, [1, 2], "sentinel-in-batch"))
+    # plate 0 is the batch AND nothing else is allowed: "-1" is written
+    out.append(mk(rows3, {"p0": False, "p1": True, "p2": True, "p3": True}, [0], {0: -2.0, 1: 0.0, 2: 1.0, 3: 0.5}, None, [1, 2], "plate0-in-batch"))
     return out
 
 
@@ -907,7 +964,9 @@ def run(ctx, res):
                 meta.append(("split", {"len": ln, "n": n}))
         xp_cases = [c_ for _, c_ in crafted_cases()][:3]
         # ---- crafted cases, every run
-        for name, case in crafted_cases():
+        for ci, (name, case) in enumerate(crafted_cases()):
+            if ci in (0, 3, 5, 7):
+                case["verbose"] = True
             cands = run_case(ctx, res, env, case, lines, expect, meta)
             res.count("class.crafted." + name)
             if name == "radix-neighbours":
@@ -920,6 +979,8 @@ def run(ctx, res):
             raw = gen_case(rng, max_plates=7, n_max=14 if ctx.tier == "quick" else 22)
             case = make_case(rng, raw, t, ctx.tier if ctx.mode == "check" else "quick", 3 if ctx.tier == "quick" else 5,
                              0.12 if ctx.tier == "quick" else 0.04)
+            if t % 7 == 3:
+                case["verbose"] = True          # ~15 % of the random cases under -v/--verbose (mains get --verbose)
             cands = run_case(ctx, res, env, case, lines, expect, meta)
             describe(res, case, cands)
             if len(xp_cases) < 12 and case["batch"] and len(cands) >= 2 and case.get("total", True):
